@@ -24,23 +24,24 @@ type UnitKind int
 
 // Unit kinds.
 const (
-	UTxXID      UnitKind = iota // BEGIN ... XID
-	UTxCommit                   // BEGIN ... COMMIT (query)
-	UTxRollback                 // BEGIN ... ROLLBACK (query)
-	UDDL                        // autocommitted DDL / SET query
-	UAutoRows                   // table map + one rows event outside BEGIN
-	UStmtDML                    // statement-format INSERT/UPDATE/DELETE outside BEGIN
-	URotate                     // real ROTATE to the next file
-	UGTID                       // GTID_LOG_EVENT
-	UAnonGTID                   // ANONYMOUS_GTID_LOG_EVENT
-	UPrevGTIDs                  // PREVIOUS_GTIDS_LOG_EVENT
-	UHeartbeat                  // artificial heartbeat (occupies no file space)
-	UUnknownEvent               // event of a type the replica does not interpret
-	UUnknownStmt                // query event whose statement the replica does not classify
+	UTxXID        UnitKind = iota // BEGIN ... XID
+	UTxCommit                     // BEGIN ... COMMIT (query)
+	UTxRollback                   // BEGIN ... ROLLBACK (query)
+	UDDL                          // autocommitted DDL / SET query
+	UAutoRows                     // table map + one rows event outside BEGIN
+	UStmtDML                      // statement-format INSERT/UPDATE/DELETE outside BEGIN
+	URotate                       // real ROTATE to the next file
+	UGTID                         // GTID_LOG_EVENT
+	UAnonGTID                     // ANONYMOUS_GTID_LOG_EVENT
+	UPrevGTIDs                    // PREVIOUS_GTIDS_LOG_EVENT
+	UHeartbeat                    // artificial heartbeat (occupies no file space)
+	UUnknownEvent                 // event of a type the replica does not interpret
+	UUnknownStmt                  // query event whose statement the replica does not classify
+	UFileEnd                      // the file ends WITHOUT a rotate event (server stop or crash): the master just continues with NextFile
 )
 
 func (k UnitKind) String() string {
-	return [...]string{"txXID", "txCommit", "txRollback", "ddl", "autoRows", "stmtDML", "rotate", "gtid", "anonGtid", "prevGtids", "heartbeat", "unknownEvent", "unknownStmt"}[k]
+	return [...]string{"txXID", "txCommit", "txRollback", "ddl", "autoRows", "stmtDML", "rotate", "gtid", "anonGtid", "prevGtids", "heartbeat", "unknownEvent", "unknownStmt", "fileEnd"}[k]
 }
 
 // Commits reports whether the unit is a commit point (produces a delivery).
@@ -105,10 +106,10 @@ type Unit struct {
 	Q        *Query `json:",omitempty"` // UDDL, UStmtDML, UUnknownStmt
 	NextFile string `json:",omitempty"` // URotate
 	SID      [16]byte
-	GNO      int64  `json:",omitempty"`
+	GNO      int64                 `json:",omitempty"`
 	Prev     []refenc.SIDIntervals `json:",omitempty"`
-	EvType   byte   `json:",omitempty"` // UUnknownEvent
-	Body     []byte `json:",omitempty"`
+	EvType   byte                  `json:",omitempty"` // UUnknownEvent
+	Body     []byte                `json:",omitempty"`
 }
 
 // History is a complete logical binlog: configuration, tables and units.  The
@@ -352,6 +353,16 @@ func (h *History) Lay() (*Layout, error) {
 				l.FDE = append(l.FDE, h.FDEBytes(uint32(4+h.FDESize())))
 				off = 4 + h.FDESize()
 			}
+		case UFileEnd:
+			if u.EvType == refenc.EvStop {
+				err = add(ui, u.TS, refenc.EvStop, 0, nil, false)
+			}
+			if err == nil {
+				l.Files = append(l.Files, u.NextFile)
+				file++
+				l.FDE = append(l.FDE, h.FDEBytes(uint32(4+h.FDESize())))
+				off = 4 + h.FDESize()
+			}
 		case UGTID:
 			err = add(ui, u.TS, refenc.EvGTID, 0, refenc.GTIDBody(1, u.SID, u.GNO, h.Cfg.GTID57, int64(ui), int64(ui)+1), false)
 		case UAnonGTID:
@@ -448,23 +459,23 @@ func (l *Layout) Served(fileName string, off int64) (payloads [][]byte, evIdx []
 	}
 	payloads = append(payloads, fde)
 	evIdx = append(evIdx, -1)
-	for i := idx; i < len(l.Events); i++ {
-		e := l.Events[i]
-		if e.File != file {
-			// crossed into the next file: artificial rotate + its format description
-			file = e.File
-			payloads = append(payloads, h.ArtificialRotate(l.Files[file], 4), l.FDE[file])
-			evIdx = append(evIdx, -1, -1)
-		}
-		payloads = append(payloads, e.Bytes)
-		evIdx = append(evIdx, i)
-		if e.Rotate && (i+1 >= len(l.Events) || l.Events[i+1].File == e.File) && file+1 < len(l.Files) {
-			// rotate was the last event of the history in this file: still announce the next file
+	announce := func(upTo int) {
+		for file < upTo {
 			file++
 			payloads = append(payloads, h.ArtificialRotate(l.Files[file], 4), l.FDE[file])
 			evIdx = append(evIdx, -1, -1)
 		}
 	}
+	for i := idx; i < len(l.Events); i++ {
+		e := l.Events[i]
+		// crossed into a later file (after a real ROTATE, or because the previous file simply
+		// ended): artificial rotate + that file's format description
+		announce(e.File)
+		payloads = append(payloads, e.Bytes)
+		evIdx = append(evIdx, i)
+	}
+	// files that follow without any stored event are still announced
+	announce(len(l.Files) - 1)
 	return payloads, evIdx, true
 }
 
